@@ -64,7 +64,11 @@ def run(c):
             hists.append(hh); outs.append(out)
         for i in sorted(conclib.serial_check(c, hists)):
             n, h, evs = ctr[i]
-            sig = "concurrent-create|%s|%s" % (sched, conclib.classify_unserializable(hists[i]))
+            created = {e["t"] for e in evs if e.get("ev") == "NewStore" and e.get("ok")}
+            aborted = {t for t, o in outs[i].items() if o != "committed"}
+            loser = any(e.get("ev") == "NewStore" and not e.get("ok") for e in evs)
+            how = "creator-did-not-commit" if created & aborted else ("loser-newbtree-error" if loser else "all-creators-committed")
+            sig = "concurrent-create|%s|%s|%s" % (sched, conclib.classify_unserializable(hists[i]), how)
             classes[sig] += 1
             c.report(sig, "concurrent NewBtree of one name: final store is not a serial outcome of the committed creators (%s)" % n,
                      dict(trace=n, schedule=h.get("sched"), history=hists[i], outcomes=outs[i], events=evs))
